@@ -26,11 +26,11 @@ struct VReader {
 #ifndef ARENA_LEDGER
 struct Arena : Allocator {
   // light arena (default): no ledger; failmask bit k makes allocator call number k (allocate or reallocate) fail
-  alignas(8) char mem[ARENA_N][ARENA_CHUNK]; unsigned next = 0; unsigned calls = 0; unsigned failmask = 0; unsigned n_free = 0;
-  void* allocate(size_t n) override { unsigned k = calls++; if ((failmask >> k) & 1) return nullptr; if (n > ARENA_CHUNK || next >= ARENA_N) return nullptr; return mem[next++]; }
+  alignas(8) char mem[ARENA_N][ARENA_CHUNK]; unsigned next = 0; unsigned calls = 0; unsigned failmask = 0; unsigned n_free = 0; size_t max_request = 0;
+  void* allocate(size_t n) override { unsigned k = calls++; if (n > max_request) max_request = n; if ((failmask >> k) & 1) return nullptr; if (n > ARENA_CHUNK || next >= ARENA_N) return nullptr; return mem[next++]; }
   void deallocate(void*) override { n_free++; }
   void* reallocate(void* p, size_t n) override { unsigned k = calls++; if ((failmask >> k) & 1) return nullptr; return n <= ARENA_CHUNK ? p : nullptr; }
-  void reset(unsigned fm = 0) { next = 0; calls = 0; failmask = fm; n_free = 0; }
+  void reset(unsigned fm = 0) { next = 0; calls = 0; failmask = fm; n_free = 0; max_request = 0; }
 };
 #else
 struct Arena : Allocator {
